@@ -487,6 +487,22 @@ def _do_cut(asm, toks, block, tmpl_line):
                 e = text.find('\n', idx)
                 at = len(text) if e < 0 else e + 1
             lab = '%s:%s#%d' % (t0, tk[1][:40], k)
+        elif t0 == 'at_entry':
+            # first line of the function body (right after its opening brace)
+            if kind != 'fn':
+                raise CutError('template line %d: //@at_entry only for fn cuts' % no)
+            at = bo + 1
+            lab = 'at_entry'
+        elif t0 == 'before_tail':
+            # @before-return: the line of the function body's tail expression (last line holding code)
+            if kind != 'fn':
+                raise CutError('template line %d: //@before_tail only for fn cuts' % no)
+            bc_ = match_close(text, m, bo)
+            k3 = bc_ - 1
+            while k3 > bo and (text[k3].isspace() or m[k3] != CODE):
+                k3 -= 1
+            at = text.rfind('\n', 0, k3) + 1
+            lab = 'before_tail'
         elif t0 in ('head', 'tail'):
             continue
         else:
@@ -604,6 +620,31 @@ def _apply_replace(text, tk, hits, no):
     frm, to = pos[0], pos[1]
     want = kv.get('count', '1')
     m = mask(text)
+    if kv.get('ws'):
+        # whitespace-insensitive exact match (the text may be laid out over several lines)
+        proj = []
+        idxmap = []
+        for i, ch in enumerate(text):
+            if not ch.isspace():
+                proj.append(ch)
+                idxmap.append(i)
+        proj = ''.join(proj)
+        needle = ''.join(frm.split())
+        spans = []
+        i = -1
+        while True:
+            i = proj.find(needle, i + 1)
+            if i < 0:
+                break
+            a, b = idxmap[i], idxmap[i + len(needle) - 1] + 1
+            if m[a] == CODE:
+                spans.append((a, b))
+        if (want == '*' and not spans) or (want != '*' and len(spans) != int(want)):
+            raise CutError('stand-in lost: %r found %d times, expected %s (template line %d)' % (frm, len(spans), want, no))
+        for a, b in reversed(spans):
+            text = _sub(text, a, b, to)
+        hits['R9.' + frm[:50]] = len(spans)
+        return text
     found = []
     i = -1
     while True:
@@ -694,6 +735,62 @@ def _cut_slice(asm, src, kv):
                             j = match_close(t, m, j)
                     j += 1
                 e = match_close(t, m, j) + 1
+    elif take == 'range':
+        # from the start of the line holding the anchor to the end of the statement that starts at `end_anchor`
+        s = t.rfind('\n', 0, idx) + 1
+        ea = kv['end_anchor']
+        j = code_find(t, m, ea, idx)
+        if j < 0:
+            raise CutError('anchor lost: slice %s end_anchor %r' % (kv.get('label'), ea))
+        if re.match(r'(if|for|while|loop|match)\b', t[j:]):
+            k2 = j
+            while k2 < n:
+                if m[k2] == CODE:
+                    if t[k2] == '{':
+                        break
+                    if t[k2] in '([':
+                        k2 = match_close(t, m, k2)
+                k2 += 1
+            e = match_close(t, m, k2) + 1
+            while True:
+                mm2 = re.match(r'\s*else\b', t[e:])
+                if not mm2:
+                    break
+                k2 = e + mm2.end()
+                while k2 < n:
+                    if m[k2] == CODE:
+                        if t[k2] == '{':
+                            break
+                        if t[k2] in '([':
+                            k2 = match_close(t, m, k2)
+                    k2 += 1
+                e = match_close(t, m, k2) + 1
+        else:
+            k2 = j
+            while k2 < n:
+                if m[k2] == CODE:
+                    if t[k2] == ';':
+                        break
+                    if t[k2] in '([{':
+                        k2 = match_close(t, m, k2)
+                k2 += 1
+            e = k2 + 1
+    elif take == 'rest_of_block':
+        # from the start of the line holding the anchor to the end of the enclosing `{ ... }` block
+        s = t.rfind('\n', 0, idx) + 1
+        d = 0
+        k2 = idx
+        e = None
+        while k2 < n:
+            if m[k2] == CODE:
+                if t[k2] in '{([':
+                    k2 = match_close(t, m, k2)
+                elif t[k2] == '}':
+                    e = k2
+                    break
+            k2 += 1
+        if e is None:
+            raise CutError('slice %s: enclosing block end not found' % kv.get('label'))
     elif take == 'stmt':
         # from the start of the anchor to the terminating ';' at depth 0
         j = idx
